@@ -79,9 +79,12 @@ def run(tier, runner):
     from ..rules import round6
     r_cg = round6.contig(progs)
     r_cg.require(2, 'byte copies issued by the memory algorithms')
+    from ..rules import seglayout
+    r_ml = seglayout.memalg_layout(progs)
+    r_ml.require(12, 'amc:: memory algorithms with their own body, instantiated with raw pointers')
     return {
-        'results': [r_ret, r_ord, r_adv, r_emu, r_raw, r_cur, r_same, r_mem, r_eff, r_di, r_cf, r_cg] + r_w,
-        'explanation': 'CONTIG: a byte copy of more than one element takes both addresses from raw pointers - an address obtained by dereferencing a class-type iterator (reverse_iterator, deque::iterator: random access but not contiguous; instantiated on both sides) is only used for one element.  DIRECT-INIT: the construct_at emulation direct-initialises like std::construct_at.  SAMETYPE: memcpy / memmove only between pointers to the same value type (cross-type copies are instantiated and must convert).  CURSOR: in every try { constructing loop } catch { destroy(first, cursor) } the cursor is never advanced inside the arguments of the constructing call, so the handler destroys exactly the objects that exist.  Per language standard (different implementations are selected by the #if ladders): RETURN - every non-void function returns on every '
+        'results': [r_ret, r_ord, r_adv, r_emu, r_raw, r_cur, r_same, r_mem, r_eff, r_di, r_cf, r_cg, r_ml] + r_w,
+        'explanation': 'MEMALG-LAYOUT: every amc:: algorithm that has its own body in the analysed standard (uninitialized_copy(_n) / move(_n) / value_construct(_n) / default_construct(_n) / destroy(_n) before C++17, relocate(_n) / relocate_at always), instantiated with raw pointers for every element archetype, is interpreted over an abstract source and destination range (array segmentation, symbolic count, the implementation selected by the trait - Default / MemMove / MemMoveInALoop - inlined, loops accelerated, memcpy / memmove / placement new / construct_at / destroy_at as transformers): on every normal path the destination holds exactly the n source elements in order, the sources are untouched / moved-from / gone as the algorithm specifies, nothing else is alive, and the returned position(s) are those of the standard algorithm.  CONTIG: a byte copy of more than one element takes both addresses from raw pointers - an address obtained by dereferencing a class-type iterator (reverse_iterator, deque::iterator: random access but not contiguous; instantiated on both sides) is only used for one element.  DIRECT-INIT: the construct_at emulation direct-initialises like std::construct_at.  SAMETYPE: memcpy / memmove only between pointers to the same value type (cross-type copies are instantiated and must convert).  CURSOR: in every try { constructing loop } catch { destroy(first, cursor) } the cursor is never advanced inside the arguments of the constructing call, so the handler destroys exactly the objects that exist.  Per language standard (different implementations are selected by the #if ladders): RETURN - every non-void function returns on every '
                        'path; SIG - result types and iterator advances as the standard algorithms (compile-time); CLEANUP (RAWTAIL on memory.hpp) - every '
                        'construct loop is inside a try whose handler destroys [dest,current) and rethrows, so partial output is destroyed on throw; '
                        'RELOC-ORDER - the generic relocate move-constructs every destination before destroying any source (sources stay alive when a '
